@@ -17,14 +17,33 @@ Theorem C03_diamond_multiplies :
 Proof. exact diamond_counts. Qed.
 Print Assumptions C03_diamond_multiplies.
 
-(* the strongest positive theorem: for every workflow (any number of nodes, any list lengths) whose nodes
-   are fed by separate origins (no open axis reaches a node through two of its inputs' states, no input
-   state is itself an input of another), that never combine away all inherited axes under an own splitter
-   and never combine over an empty box, the model's outputs are the nested-loop outputs.
-   The excluded class is computable: c03_domain = false. *)
-Theorem C03_partial : forall wf : workflow, c03_domain wf = true -> model_run wf = Some (spec_run wf).
-Proof. exact partial. Qed.
+(* the strongest positive theorem: for every workflow (any number of nodes, any list lengths) in which the
+   state-carrying inputs of every node either carry separate origins (no open axis in common, none an input
+   of another) or are exactly a state and a node that only hands that state on; that never combines away all
+   inherited axes under an own splitter; and never combines over an empty box — the model's outputs are the
+   nested-loop outputs.  The excluded class is computable: c03_aligned wf = false (findings F03, F03g, F03h). *)
+Theorem C03_partial : forall wf : workflow, c03_aligned wf = true -> model_run wf = Some (spec_run wf).
+Proof. exact aligned. Qed.
 Print Assumptions C03_partial.
+
+(* separate origins only *)
+Theorem C03_separate_origins : forall wf : workflow, c03_domain wf = true -> model_run wf = Some (spec_run wf).
+Proof. exact partial. Qed.
+Print Assumptions C03_separate_origins.
+
+(* direct sharing: an origin reaching a node both directly and through a state-less intermediate is
+   aligned (the _add_state_history case) — for all lists vs, us, ws and both field orders *)
+Theorem C03_shared_direct : forall (vs us ws : list Z) (flip : bool),
+  model_run (shared_direct vs us ws flip) = Some (spec_run (shared_direct vs us ws flip)).
+Proof. exact shared_direct_ok. Qed.
+Print Assumptions C03_shared_direct.
+Example C03_shared_direct_not_separate : c03_domain (shared_direct [1; 2]%Z [3]%Z [4; 5]%Z false) = false.
+Proof. exact shared_direct_not_separate. Qed.
+Example C03_shared_direct_counts :
+  spec_njobs (shared_direct [1; 2]%Z [3]%Z [4; 5]%Z false) = [2; 2; 4; 4]
+  /\ option_map (map (fun v => match v with VList l => List.length l | _ => 0 end))
+       (model_run (shared_direct [1; 2]%Z [3]%Z [4; 5]%Z false)) = Some [2; 2; 4; 4].
+Proof. exact shared_direct_counts. Qed.
 
 Example C03_partial_fanin_example : c03_domain fanin_example = true.
 Proof. exact fanin_example_in_class. Qed.
